@@ -173,7 +173,10 @@ class Ghost:
             return x in self.events[y]["past"]
         conc = [(x, y) for x in evs for y in evs
                 if self.events[x]["arg"][0] == ADD and self.events[y]["arg"][0] == REM and not hb(x, y) and not hb(y, x)]
-        return "concurrent-add-remove" if conc else "no-concurrent-add-remove"
+        if not conc:
+            return "no-concurrent-add-remove"
+        # the known AWORSet defect needs a third update of the element (later or stale) besides the concurrent pair
+        return "concurrent-add-remove" if len(evs) >= 3 else "concurrent-pair-only"
 
 
 def oracle(case, res, ts):
@@ -384,8 +387,21 @@ def run(ctx):
 
 MANIFEST = {
     "category": "proof",
-    "technique": "Coq proofs (semilattice laws on all well-formed states, history invariants over all op sequences, refutation witness for AWORSet) "
-                 "+ differential correspondence model vs Go types + implementation-side convergence/read-semantics/law oracle",
-    "text": "see notes/C12.md",
-    "level_note": "see notes/C12.md",
+    "technique": "Coq proofs (semilattice laws on all well-formed states up to an order-insensitive equivalence, invariants over all "
+                 "histories lifted by one generic theorem, refutation witnesses for AWORSet) + differential correspondence model vs "
+                 "the Go types through resources.CRDTValue and encoding/gob + implementation-side convergence / read-semantics / law oracle",
+    "text": ("Theorems in coq/Properties/C12.v, all closed under the global context. GCounter (complete): merge_comm/assoc/idem, "
+             "write_inflationary, order_irrelevant, gob_preserves on all well-formed states; for every history (any replicas, writes, "
+             "snapshots with/without gob, deliveries of any message any number of times) with non-negative increments summing below 2^31: "
+             "reachable_wf, strong_convergence (same delivered updates => same read) and read = sum of the delivered increments. "
+             "LWWSet (complete, after two fix: commits): the same laws, write_inflationary for ANY timestamp oracle, gob (decoder accepts the "
+             "encoder's stream), strong_convergence and read = 'latest event wins, add wins ties' for every history. AWORSet: compare is the "
+             "vector-clock order independently of iteration order, merge_comm, merge_idem, write_inflationary, order_irrelevant, gob_preserves, "
+             "read = add entries, reachable_wf; strong convergence and associativity are REFUTED (aworset_convergence_refuted, "
+             "aworset_merge_assoc_refuted: witnesses by vm_compute, replayed on the Go code) and recorded as known findings."),
+    "level_note": ("Trusted: Coq kernel; the hand-written model (tie = differential testing on 240 quick / 6000 thorough histories, so a code "
+                   "change is caught only if a generated history reaches it); tla.Value identifiers abstracted to Z; gob primitives; time.Now as oracle. "
+                   "AWORSet: no positive convergence theorem (it is false); failures on elements with a concurrent add/remove pair plus a third "
+                   "update are reported as KNOWN-FINDING, every other failure (commutativity, idempotence, inflation, any failure without such a "
+                   "pair) is a VIOLATION. Equivalent mutant observed: AWORSet.Read ignoring remMap (add and remove maps are disjoint on reachable states)."),
 }
